@@ -5,7 +5,7 @@
 (* sum / append, divide.  TLC enumerates lists of 1..3 results incl. different   *)
 (* insertion orders, empty arrays and one differing key, checks M => P.          *)
 EXTENDS ResultProps, TLC, Json
-CONSTANTS Legacy, Emit, MaxR
+CONSTANTS Legacy, Emit, MaxR, Light
 VARIABLES rs, o, pc
 vars == <<rs, o, pc>>
 Perms2(a, b) == {<<a, b>>, <<b, a>>}
@@ -17,8 +17,11 @@ Results(t) ==
                \cup (IF t = 2 THEN {<<<<"rmse", 1>>>>, <<<<"rmse", 1>>, <<"mean", 1>>, <<"max", 2>>>>} ELSE {}),
       ar \in UNION {Perms2(<<"err", Arr(t, la)>>, <<"ts", Arr(t + 3, lb)>>) : la \in 0..2, lb \in 1..2}
                \cup (IF t = 2 THEN {<<<<"err", Arr(t, 2)>>>>} ELSE {})}
+\* light family: three results with one statistic and one array each, all length patterns
+LightResult(t, la) == [stats |-> <<<<"rmse", t>>>>, arrays |-> <<<<"err", Arr(t, la)>>>>, info |-> t]
 Init == /\ pc = "call" /\ o = [out |-> "none"]
-        /\ \E n \in 1..MaxR : rs \in [1..n -> UNION {Results(t) : t \in 1..3}] /\ \A k \in 1..n : rs[k].info = k
+        /\ IF Light THEN \E l1, l2, l3 \in 0..3 : rs = <<LightResult(1, l1), LightResult(2, l2), LightResult(3, l3)>>
+           ELSE \E n \in 1..MaxR : rs \in [1..n -> UNION {Results(t) : t \in 1..3}] /\ \A k \in 1..n : rs[k].info = k
 
 Sizes(r) == [k \in DOMAIN r.arrays |-> Len(r.arrays[k][2])]
 Average == IF Legacy THEN \A a, b \in DOMAIN rs : Sizes(rs[a]) = Sizes(rs[b])
